@@ -243,7 +243,9 @@ def selection_builders(h):
         'MaskSubsetState': [('image-mask', lambda: S.MaskSubsetState(m, img.pixel_component_ids))],
         'FloodFillSubsetState': [('image', lambda: S.FloodFillSubsetState(img, img.id['v'], (1, 1), 1.4))],
         'SliceSubsetState': [('image', lambda: S.SliceSubsetState(img, [slice(1, 3), slice(0, 2)])), ('cube-stepped', lambda: S.SliceSubsetState(cube, [slice(None), slice(None, None, 2), slice(1, None)])),
-                             ('short', lambda: S.SliceSubsetState(cube, [slice(0, 1)]))],
+                             ('short', lambda: S.SliceSubsetState(cube, [slice(0, 1)])),
+                             # the first dataset of the collection is still being restored when the selections of its subsets are read back
+                             ('first-dataset', lambda: S.SliceSubsetState(h['t'], [slice(1, 5)]))],
         'PixelSubsetState': [('cube-pixel', lambda: PixelSubsetState(cube, [slice(None), slice(1, 2), slice(2, 3)]))],
         'CategorySubsetState': [('codes', lambda: S.CategorySubsetState(cat, [0, 2]))],
         'ElementSubsetState': [('indices', lambda: S.ElementSubsetState([0, 3, 5], data=t)), ('indices-no-data', lambda: S.ElementSubsetState([1, 2]))],
@@ -323,6 +325,28 @@ def run_selections(tier, seed, R, covered=None):
             continue
         if not any(k.split(':')[0] == cls.__name__ for k in rb) and cls.__module__.startswith('glue.core'):
             R.fail("roi|%s|no-builder" % cls.__name__, "region class %s has no builder in the harness" % cls.__name__, None)
+    # every leaf kind nested once in every kind of combination (deterministic; the random trees below mix them)
+    for name, variants in builders.items():
+        if name == 'CompositeSubsetState':
+            continue
+        for variant, _ in variants:
+            for wname in ('not', 'and', 'multi-or', 'not-not'):
+                dc, h = base_collection()
+                try:
+                    leaf_state = dict(selection_builders(h)[name])[variant]()
+                    from glue.core.subset import MultiOrState
+                    other = companion(dc, h, leaf_state)
+                    state = {'not': lambda: ~leaf_state, 'and': lambda: leaf_state & other, 'multi-or': lambda: MultiOrState([other, leaf_state]),
+                             'not-not': lambda: ~(~leaf_state | other)}[wname]()
+                except Exception:
+                    continue
+                dc.new_subset_group('nested', state)
+                r = check_collection(dc, True, extra=selection_extra)
+                R.count(('nested', name, variant, wname), 'selection-nested')
+                if r is not None and r != 'refused':
+                    R.fail("selection-nested|%s|%s|%s|%s" % (name, variant.split(':')[0] if name == 'RoiSubsetState' else variant, wname, r[0]),
+                           "subset group holding %s (%s) nested as %s: %s" % (name, variant, wname, r[1]),
+                           "from bounded.c02_session import replay_nested\nsys.exit(replay_nested(%r, %r, %r))\n" % (name, variant, wname))
     # compositions: random trees over the leaf builders
     n_comp = 60 if tier == 'quick' else 400
     leaves = [(n, v) for n, vs in builders.items() for v, _ in vs if n not in ('CompositeSubsetState',)]
@@ -357,6 +381,30 @@ def run_selections(tier, seed, R, covered=None):
             culprits = sorted(l for l in failed_leaves if l in desc)
             sig = "selection-composition|contains:%s|%s" % (culprits[0], r[0]) if culprits else "selection-composition|%s" % r[0]
             R.fail(sig, "subset group holding %s: %s" % (desc, r[1]), None)
+
+
+def companion(dc, h, leaf_state):
+    """a second selection that can be evaluated wherever the leaf can (first pixel axis >= 1 of the first dataset the leaf applies to)"""
+    for d in dc:
+        try:
+            leaf_state.to_mask(d)
+        except Exception:
+            continue
+        return d.pixel_component_ids[0] >= 1
+    return h['t'].id['x'] > 0
+
+
+def replay_nested(name, variant, wname):
+    from glue.core.subset import MultiOrState
+    dc, h = base_collection()
+    leaf_state = dict(selection_builders(h)[name])[variant]()
+    other = companion(dc, h, leaf_state)
+    state = {'not': lambda: ~leaf_state, 'and': lambda: leaf_state & other, 'multi-or': lambda: MultiOrState([other, leaf_state]),
+             'not-not': lambda: ~(~leaf_state | other)}[wname]()
+    dc.new_subset_group('nested', state)
+    r = check_collection(dc, True, extra=selection_extra)
+    print(r)
+    return 1 if r is not None and r != 'refused' else 0
 
 
 def replay_selection(name, variant):
